@@ -308,13 +308,14 @@ class Check:
         obj["tier"] = self.tier
         blob = json.dumps(obj, sort_keys=True, default=str)
         dg = hashlib.md5(blob.encode()).hexdigest()[:10]
-        rdir = VERIF / "replays"
-        rdir.mkdir(exist_ok=True)
+        rdir = Path(os.environ.get("PGV_REPLAY_DIR") or (VERIF / "replays"))
+        rdir.mkdir(exist_ok=True, parents=True)
         path = rdir / f"{self.pid}-{dg}.json"
-        obj["replay_cmd"] = f"./check {self.pid} --replay replays/{path.name}"
+        shown = f"replays/{path.name}" if rdir == VERIF / "replays" else str(path)
+        obj["replay_cmd"] = f"./check {self.pid} --replay {shown}"
         path.write_text(json.dumps(obj, indent=1, default=str))
         if len(self.violations) < 5:
-            line = f"VIOLATION property={self.pid} replay=replays/{path.name}"
+            line = f"VIOLATION property={self.pid} replay={shown}"
             if no_input:
                 line += " no-failing-input-found"
             print(line, flush=True)
@@ -351,8 +352,8 @@ class Check:
             "wall_s": round(time.time() - self.t0, 2),
             "violations": len(self.violations),
         }
-        edir = VERIF / "evidence"
-        edir.mkdir(exist_ok=True)
+        edir = Path(os.environ.get("PGV_EVIDENCE_DIR") or (VERIF / "evidence"))   # seed/self-test runs write elsewhere
+        edir.mkdir(exist_ok=True, parents=True)
         (edir / f"{self.pid}.json").write_text(json.dumps(ev, indent=1, default=str))
         ok = not self.violations
         print(
